@@ -81,13 +81,15 @@ def context_rule(repo: Repo, rep: Report, rid: str) -> None:
     n = 0
     funcs = [f for f in repo.all_functions() if f.module.rel.startswith("types/") or f.module.rel == "bitbuffer.py"]
     tf = T.reader_template_functions(repo)
+    from ..util import resolve_local as _resolve_local
+
     for fi in funcs + tf:
         has_ctx = "context" in fi.params
         # in-progress result dict: the dict receiving  X[field._name] = value
         result_names = set()
         for x in ast.walk(fi.node):
             if isinstance(x, ast.Assign) and isinstance(x.targets[0], ast.Subscript) and isinstance(x.targets[0].value, ast.Name):
-                sl = norm(x.targets[0].slice)
+                sl = norm(_resolve_local(fi.node, x.targets[0].slice))
                 if "field._name" in sl or "field__name" in sl:
                     result_names.add(x.targets[0].value.id)
         from ..util import in_progress_result_names as _iprn
@@ -307,7 +309,7 @@ def array_count_fold_rule(repo: Repo, rep: Report, rid: str) -> None:
     rep.check(not bad, rid, f"{rd.key}:fold", "9 count kinds give the expected request to the element type",
               f"BaseArray._read for {bad[0][0] if bad else ''}: {bad[0][1] if bad else ''}, expected {bad[0][2] if bad else ''}", rd.loc())
     bad = fold["write_bad"]
-    rep.check(not bad, rid, f"{wr.key}:fold", "6 (count kind, value length) cases: written through the right slot or refused",
+    rep.check(not bad, rid, f"{wr.key}:fold", "(count kind, value length) cases incl. two dimensions: written through the right slot or refused",
               f"BaseArray._write for {bad[0][0] if bad else ''}: {bad[0][1] if bad else ''}, expected {bad[0][2] if bad else ''}", wr.loc())
 
 
@@ -325,6 +327,24 @@ def array_size_text_fold_rule(repo: Repo, rep: Report, rid: str) -> None:
     bad = fold["bad"]
     rep.check(not bad, rid, f"{fi.key}:fold", f"{fold['cases']} cases agree with the reference",
               (f"array size '{bad[0][0]}' with earlier fields {bad[0][1]} and constants {bad[0][2]} becomes {bad[0][3]!r}, expected {bad[0][4]!r}") if bad else "", fi.loc())
+
+
+def generic_write_array_rule(repo: Repo, rep: Report, rid: str) -> None:
+    rep.rule(rid, "generic array writers folded: MetaType._write_array / _write_0 on a model element type (whose writer pads to the absolute stream "
+                  "position) over 8 (slot, start position, entries) cases - every element, and the default as terminator of the null-terminated form, is "
+                  "written by the element writer, in order, on the caller's stream at the position the previous one left; the caller's list is unchanged; "
+                  "the count is the sum of the element writer's counts")
+    from ..folds import fold_generic_write_array
+
+    fi = repo.func("types/base.py", "MetaType._write_array")
+    fold = fold_generic_write_array(repo)
+    if fold is None:
+        rep.ok(rid, f"{fi.key}:fold", "not foldable with the evaluator's whitelist", fi.loc(), nontrivial=False)
+        return
+    bad = fold["bad"]
+    rep.check(not bad, rid, f"{fi.key}:fold", f"{fold['cases']} cases agree with the reference",
+              (f"MetaType.{bad[0][0]} given {bad[0][1]}: {bad[0][2]} ({bad[0][3]}): elements that pad to an absolute alignment (aligned structures) are "
+               "laid out as if the array started at 0, so the bytes differ from what the reader expects whenever the array starts elsewhere") if bad else "", fi.loc())
 
 
 def run(repo: Repo, rep: Report, tier: str) -> None:
@@ -364,3 +384,4 @@ def run(repo: Repo, rep: Report, tier: str) -> None:
     from .c13 import parser_fold_rule
 
     parser_fold_rule(repo, rep, "C07.R22")
+    generic_write_array_rule(repo, rep, "C07.R23")
